@@ -620,6 +620,18 @@ impl<B> Flow<B, RecvResponse> {
         Ok((input_used, Some(response)))
     }
 
+    /// Set whether to accept a redirect response that lacks the final `\r\n`.
+    ///
+    /// See [`Call::allow_partial_redirect()`][crate::client::call::Call::allow_partial_redirect].
+    ///
+    /// Defaults to `false`.
+    pub fn allow_partial_redirect(&mut self, enabled: bool) {
+        self.inner
+            .call
+            .as_recv_response_mut()
+            .allow_partial_redirect(enabled);
+    }
+
     /// Tell if we have finished receiving the response.
     pub fn can_proceed(&self) -> bool {
         self.inner.call.as_recv_response().is_finished()
